@@ -1,5 +1,6 @@
 #!/bin/sh
-# usage: all_mutants.sh [jobs] -- every seeded change against the quick tier of its property, in scratch worktrees
+# usage: all_mutants.sh [jobs] -- every seeded change against the quick tier of its property (meta.json
+# "check_property" when the change lies outside the quantifier of the property it was written for), in scratch worktrees
 J=${1:-4}
 cd /verif
-ls seeded | xargs -P "$J" -I{} sh -c 'id={}; prop=$(echo $id | cut -c1-3); out=$(lib/try_mutant.sh seeded/$id/patch.diff $prop quick 2>&1); if echo "$out" | grep -q "^VIOLATION property=$prop"; then echo "$id detected"; else echo "$id MISSED: $(echo "$out" | tail -1)"; fi'
+ls seeded | xargs -P "$J" -I{} sh -c 'id={}; prop=$(python3 -c "import json,sys; m=json.load(open(\"seeded/$id/meta.json\")); print(m.get(\"check_property\", \"$id\"[:3]))"); out=$(lib/try_mutant.sh seeded/$id/patch.diff $prop quick 2>&1); if echo "$out" | grep -q "^VIOLATION property=$prop"; then echo "$id detected ($prop)"; else echo "$id MISSED ($prop): $(echo "$out" | tail -1)"; fi'
